@@ -3,6 +3,7 @@
     certificate registered for the service provider; the theorem says they were consulted, with a positive answer, on
     exactly the values the handler then acts on (and persists). *)
 From Saml Require Import Base.Bytes Idp.FactTypes Gen.Facts Gen.Pure Idp.Sso Proofs.SsoProofs Proofs.SsoAccept.
+From Saml Require Gen.Nec Core.Necessary.
 
 Section C05.
 Variable e_form : option form.
@@ -101,6 +102,30 @@ Example C05_detached_in_post_refuted :
     (fun _ => IAbsent) 0 (fun _ => Some (b "id1")) [] [] [] true sso_steps = Done st [RLogin (b "id1")].
 Proof. eexists. vm_compute. reflexivity. Qed.
 
+(** WHEN A SIGNATURE HAS TO BE CHECKED, FROM SOURCE.  go2v translates signaturePostProvided, signaturePostVerificationNecessary
+    (post.go), signatureRedirectVerificationNecessary (redirect.go) and certificateCheckNecessary (sso.go) over views of the
+    model structs with pointers as options; for every IdP flag, provider record, request form and decoded request they are the
+    conditions the single sign-on model uses (post_provided, post_necessary, redirect_necessary, cert_check_necessary -- the
+    hypotheses of C05_signatures / C05_required_forms / C11_want_signed) *)
+Theorem C05_necessity_from_source : forall want (f : form) (a : authn) (s : sp_rec),
+  Nec.signaturePostProvided (option_map Necessary.view_sig (a_signature a)) = post_provided (a_signature a) /\
+  Nec.signaturePostVerificationNecessary (Some (Necessary.view_idp want)) (Some (Necessary.view_sp s)) (option_map Necessary.view_sig (a_signature a)) (f_binding f)
+    = post_necessary want f a s /\
+  Nec.signatureRedirectVerificationNecessary (Some (Necessary.view_idp want)) (Some (Necessary.view_sp s)) (f_sig f) (f_binding f) = redirect_necessary want f s /\
+  Nec.certificateCheckNecessary (option_map Necessary.view_sig (a_signature a)) (Some (Necessary.view_sp s)) = cert_check_necessary a s.
+Proof.
+  intros. split; [apply Necessary.post_provided_bridge|split; [apply Necessary.post_necessary_bridge|split; [apply Necessary.redirect_necessary_bridge|apply Necessary.cert_necessary_bridge]]].
+Qed.
+
+(** ... and the certificate check itself (checkCertificate, sso.go: three nested loops returning at the first certificate text the
+    request's KeyInfo and the provider's key descriptors share; the text normalisation strings.Join(strings.Fields(x), "") is
+    an oracle): no error exactly when the model's check_certificate holds of the normalised texts -- the hypothesis of
+    C05_keyinfo_registered *)
+Theorem C05_certificate_check_from_source : forall norm (a : authn) (s : sp_rec),
+  goerr_is_nil (Nec.checkCertificate norm (option_map Necessary.view_sig (a_signature a)) (Some (Necessary.view_sp s)))
+  = check_certificate (Necessary.norm_authn norm a) (Necessary.norm_sp norm s).
+Proof. exact Necessary.check_certificate_bridge. Qed.
+
 Print Assumptions C05_signatures.
 Print Assumptions C05_persisted.
 Print Assumptions C05_required_forms.
@@ -108,3 +133,5 @@ Print Assumptions C05_current_tree.
 Print Assumptions C05_keyinfo_registered.
 Print Assumptions C05_current_tree_cert.
 Print Assumptions C05_unverified_only_cross_binding.
+Print Assumptions C05_necessity_from_source.
+Print Assumptions C05_certificate_check_from_source.
